@@ -113,8 +113,7 @@ class Obj:
         self.ci = ci
 
     def key(self):
-        return ('Obj', self.cls, self.path,
-                tuple(sorted((k, _key(v)) for k, v in self.fields.items())))
+        return _key(self)
 
     def __eq__(self, other):
         return isinstance(other, Obj) and self.key() == other.key()
@@ -128,8 +127,16 @@ class Obj:
         return f'<{self.cls} {self.fields}>'
 
 
+class Popped:
+    """layer marker: key removed from the dict at this point"""
+
+    def __init__(self, key):
+        self.key = key
+
+
 class DictV:
-    """Ordered layers: each layer is a {const key: value} dict or a symbolic term."""
+    """Ordered layers: {const key: value} dicts, symbolic terms (unknown mappings
+    merged in at that point) and Popped(key) markers."""
 
     def __init__(self, layers=None):
         self.layers = list(layers or [])
@@ -138,13 +145,30 @@ class DictV:
         return DictV([dict(l) if isinstance(l, dict) else l for l in self.layers])
 
     def get(self, k):
+        """value | Const('__absent__') | None (a symbolic layer may define it)"""
         for l in reversed(self.layers):
             if isinstance(l, dict):
                 if k in l:
                     return l[k]
+            elif isinstance(l, Popped):
+                if l.key == k:
+                    return Const('__absent__')
             else:
-                return None   # a symbolic layer may define it
+                return None
         return Const('__absent__')
+
+    def symbolic_sources(self, k):
+        """the symbolic layers that may define k (in order), ignoring later concrete layers"""
+        out = []
+        for l in self.layers:
+            if isinstance(l, Popped):
+                if l.key == k:
+                    out = []
+            elif not isinstance(l, dict):
+                out.append(l)
+            elif k in l:
+                out = []
+        return out
 
     def set(self, k, v):
         if self.layers and isinstance(self.layers[-1], dict):
@@ -152,20 +176,27 @@ class DictV:
         else:
             self.layers.append({k: v})
 
+    def pop(self, k):
+        for l in self.layers:
+            if isinstance(l, dict):
+                l.pop(k, None)
+        if self.has_symbolic():
+            self.layers.append(Popped(k))
+
     def has_symbolic(self):
-        return any(not isinstance(l, dict) for l in self.layers)
+        return any(not isinstance(l, (dict, Popped)) for l in self.layers)
 
     def keys(self):
         ks = []
         for l in self.layers:
             if isinstance(l, dict):
                 ks += [k for k in l if k not in ks]
+            elif isinstance(l, Popped) and l.key in ks:
+                ks.remove(l.key)
         return ks
 
     def key(self):
-        return ('DictV', tuple(
-            tuple(sorted((k, _key(v)) for k, v in l.items())) if isinstance(l, dict)
-            else ('sym', _key(l)) for l in self.layers))
+        return _key(self)
 
     def __eq__(self, o):
         return isinstance(o, DictV) and self.key() == o.key()
@@ -177,22 +208,48 @@ class DictV:
         return f'DictV{self.layers}'
 
 
+_INTERN = {}
+_KEYCACHE = {}
+
+
+def _intern(t):
+    n = _INTERN.get(t)
+    if n is None:
+        n = len(_INTERN) + 1
+        _INTERN[t] = n
+    return n
+
+
 def _key(v):
-    if isinstance(v, (Obj, DictV)):
-        return v.key()
-    if isinstance(v, Tup):
-        return ('Tup', tuple(_key(i) for i in v.items))
-    if isinstance(v, sp.Basic):
-        return ('sp', sp.srepr(v))
-    if isinstance(v, (App,)):
-        return ('App', v.name, tuple(_key(a) for a in v.args))
-    if isinstance(v, Ite):
-        return ('Ite', _key(v.cond), _key(v.a), _key(v.b))
-    if isinstance(v, Cmp):
-        return ('Cmp', v.op, _key(v.lhs), _key(v.rhs))
-    if isinstance(v, BoolT):
-        return ('BoolT', v.op, tuple(_key(a) for a in v.args))
-    return ('py', repr(v))
+    """Hash-consed structural key (an int): equal terms get equal keys; linear in DAG size."""
+    immut = isinstance(v, (Tup, App, Ite, Cmp, BoolT))
+    if immut:
+        c = _KEYCACHE.get(id(v))
+        if c is not None and c[0] is v:
+            return c[1]
+    if isinstance(v, Obj):
+        k = _intern(('Obj', v.cls, v.path, tuple(sorted((f, _key(x)) for f, x in v.fields.items()))))
+    elif isinstance(v, DictV):
+        k = _intern(('DictV', tuple(
+            tuple(sorted((kk, _key(x)) for kk, x in l.items())) if isinstance(l, dict)
+            else (('popped', l.key) if isinstance(l, Popped) else ('sym', _key(l))) for l in v.layers)))
+    elif isinstance(v, Tup):
+        k = _intern(('Tup', tuple(_key(i) for i in v.items)))
+    elif isinstance(v, sp.Basic):
+        k = _intern(('sp', sp.srepr(v)))
+    elif isinstance(v, App):
+        k = _intern(('App', v.name, tuple(_key(a) for a in v.args)))
+    elif isinstance(v, Ite):
+        k = _intern(('Ite', _key(v.cond), _key(v.a), _key(v.b)))
+    elif isinstance(v, Cmp):
+        k = _intern(('Cmp', v.op, _key(v.lhs), _key(v.rhs)))
+    elif isinstance(v, BoolT):
+        k = _intern(('BoolT', v.op, tuple(_key(a) for a in v.args)))
+    else:
+        k = _intern(('py', repr(v)))
+    if immut:
+        _KEYCACHE[id(v)] = (v, k)
+    return k
 
 
 def same(a, b):
@@ -226,7 +283,7 @@ def contains_unknown(v, _d=0):
     elif isinstance(v, Obj):
         subs = tuple(v.fields.values())
     elif isinstance(v, DictV):
-        subs = [x for l in v.layers for x in (l.values() if isinstance(l, dict) else [l])]
+        subs = [x for l in v.layers if not isinstance(l, Popped) for x in (l.values() if isinstance(l, dict) else [l])]
     elif isinstance(v, sp.Basic):
         for f in v.atoms(sp.Function):
             if isinstance(f, sp.core.function.AppliedUndef) and f.func.__name__.startswith('UNK_'):
@@ -294,30 +351,60 @@ def mk_ite(c, a, b):
     return Ite(c, a, b)
 
 
-def assume(t, c, truth, _d=0):
+def _ite_plain(c, a, b):
+    if isinstance(c, Const):
+        return a if c.v else b
+    if a is b or same(a, b):
+        return a
+    if isinstance(a, Const) and isinstance(b, Const) and a.v is True and b.v is False:
+        return c
+    if isinstance(a, Const) and isinstance(b, Const) and a.v is False and b.v is True:
+        return mk_not(c)
+    return Ite(c, a, b)
+
+
+def assume(t, c, truth, _d=0, _memo=None):
     """Simplify term t knowing that boolean term c has the given truth value."""
-    if _d > 30:
-        return t
     if isinstance(c, BoolT) and c.op == 'not':
-        return assume(t, c.args[0], not truth, _d)
+        return assume(t, c.args[0], not truth, _d, _memo)
+    if _memo is None:
+        _memo = {'ck': _key(c), 'n': 0}
+    if not isinstance(t, (Ite, Cmp, BoolT, Tup, App)) or _d > 25:
+        return t
+    k = id(t)
+    if k in _memo:
+        return _memo[k]
+    _memo['n'] += 1
+    if _memo['n'] > 4000:
+        return t
+    ck = _memo['ck']
     if isinstance(t, Ite):
-        if same(t.cond, c):
-            return assume(t.a if truth else t.b, c, truth, _d + 1)
-        if isinstance(t.cond, BoolT) and t.cond.op == 'not' and same(t.cond.args[0], c):
-            return assume(t.b if truth else t.a, c, truth, _d + 1)
-        return mk_ite(assume(t.cond, c, truth, _d + 1), assume(t.a, c, truth, _d + 1),
-                      assume(t.b, c, truth, _d + 1))
-    if isinstance(t, (Cmp, BoolT)) and same(t, c):
-        return Const(truth)
-    if isinstance(t, Tup):
-        return Tup(tuple(assume(i, c, truth, _d + 1) for i in t.items), t.kind)
-    if isinstance(t, App):
-        return App(t.name, tuple(assume(a, c, truth, _d + 1) for a in t.args))
-    if isinstance(t, Cmp):
-        return Cmp(t.op, assume(t.lhs, c, truth, _d + 1), assume(t.rhs, c, truth, _d + 1))
-    if isinstance(t, BoolT):
-        return simp_bool(BoolT(t.op, tuple(assume(a, c, truth, _d + 1) for a in t.args)))
-    return t
+        tk = _key(t.cond)
+        if tk == ck:
+            r = assume(t.a if truth else t.b, c, truth, _d + 1, _memo)
+        elif isinstance(t.cond, BoolT) and t.cond.op == 'not' and _key(t.cond.args[0]) == ck:
+            r = assume(t.b if truth else t.a, c, truth, _d + 1, _memo)
+        else:
+            r = _ite_plain(assume(t.cond, c, truth, _d + 1, _memo), assume(t.a, c, truth, _d + 1, _memo),
+                           assume(t.b, c, truth, _d + 1, _memo))
+    elif isinstance(t, (Cmp, BoolT)) and _key(t) == ck:
+        r = Const(truth)
+    elif isinstance(t, Tup):
+        items = tuple(assume(i, c, truth, _d + 1, _memo) for i in t.items)
+        r = t if all(x is y for x, y in zip(items, t.items)) else Tup(items, t.kind)
+    elif isinstance(t, App):
+        args = tuple(assume(a, c, truth, _d + 1, _memo) for a in t.args)
+        r = t if all(x is y for x, y in zip(args, t.args)) else App(t.name, args)
+    elif isinstance(t, Cmp):
+        l, rr = assume(t.lhs, c, truth, _d + 1, _memo), assume(t.rhs, c, truth, _d + 1, _memo)
+        r = t if (l is t.lhs and rr is t.rhs) else Cmp(t.op, l, rr)
+    elif isinstance(t, BoolT):
+        args = tuple(assume(a, c, truth, _d + 1, _memo) for a in t.args)
+        r = t if all(x is y for x, y in zip(args, t.args)) else simp_bool(BoolT(t.op, args))
+    else:
+        r = t
+    _memo[k] = r
+    return r
 
 
 def assume_env(env, c, truth):
@@ -1249,15 +1336,19 @@ class Evaluator:
                 v = base.get(args[0].v)
                 dflt = args[1] if len(args) > 1 else Const(None)
                 if v is None:
-                    return App('dict.' + meth, (base.copy(),) + tuple(args))
+                    srcs = base.symbolic_sources(args[0].v)
+                    r = App('lookup', (Tup(tuple(srcs)), args[0], dflt))
+                    if meth == 'pop':
+                        base.pop(args[0].v)
+                    elif meth == 'setdefault':
+                        base.set(args[0].v, r)
+                    return r
                 if isinstance(v, Const) and v.v == '__absent__':
                     if meth == 'setdefault':
                         base.set(args[0].v, dflt)
                     return dflt
                 if meth == 'pop':
-                    for l in base.layers:
-                        if isinstance(l, dict):
-                            l.pop(args[0].v, None)
+                    base.pop(args[0].v)
                 return v
             if meth in ('items', 'keys', 'values'):
                 return App('dict.' + meth, (base.copy(),))
@@ -1815,12 +1906,35 @@ def simp_bool(t):
 
 
 # -------------------------------------------------------------- printing
+class _Budget(Exception):
+    pass
+
+
 def show(t, maxlen=400):
-    s = _show(t)
+    global _SHOW_LEFT
+    _SHOW_LEFT = [maxlen * 6 + 200]
+    try:
+        s = _show(t)
+    except _Budget:
+        s = _show_trunc(t)
     return s if len(s) <= maxlen else s[:maxlen] + '…'
 
 
+_SHOW_LEFT = [10 ** 9]
+
+
+def _show_trunc(t):
+    return f'<{type(t).__name__} too large to print>'
+
+
 def _show(t):
+    _SHOW_LEFT[0] -= 1
+    if _SHOW_LEFT[0] < 0:
+        raise _Budget()
+    return _show1(t)
+
+
+def _show1(t):
     if isinstance(t, sp.Basic):
         return str(t)
     if isinstance(t, Const):
@@ -1845,7 +1959,8 @@ def _show(t):
         return f'{t.cls}(' + ', '.join(f'{k}={_show(v)}' for k, v in t.fields.items()) + ')'
     if isinstance(t, DictV):
         return 'dict' + repr([({k: _show(v) for k, v in l.items()} if isinstance(l, dict)
-                               else '**' + _show(l)) for l in t.layers])
+                               else ('-' + str(l.key) if isinstance(l, Popped) else '**' + _show(l)))
+                              for l in t.layers])
     if isinstance(t, (ClassRef, FuncRef)):
         return getattr(t, 'name', '') or getattr(t, 'qual', '')
     if isinstance(t, ExtRef):
@@ -1911,3 +2026,50 @@ def pred_equiv(c1: Cmp, c2: Cmp):
     if not ok:
         return 'ne'
     return 'eq' if o1 == o2 else 'strictness'
+
+
+# ---------------------------------------------------------------- traversal
+def walk_terms(t, _seen=None):
+    """Yield every distinct sub-term of t (DAG-aware)."""
+    _seen = set() if _seen is None else _seen
+    stack = [t]
+    while stack:
+        x = stack.pop()
+        if id(x) in _seen:
+            continue
+        _seen.add(id(x))
+        yield x
+        if isinstance(x, Tup):
+            stack.extend(x.items)
+        elif isinstance(x, App):
+            stack.extend(x.args)
+        elif isinstance(x, Ite):
+            stack.extend((x.cond, x.a, x.b))
+        elif isinstance(x, Cmp):
+            stack.extend((x.lhs, x.rhs))
+        elif isinstance(x, BoolT):
+            stack.extend(x.args)
+        elif isinstance(x, Obj):
+            stack.extend(x.fields.values())
+        elif isinstance(x, DictV):
+            for l in x.layers:
+                if isinstance(l, dict):
+                    stack.extend(l.values())
+                elif not isinstance(l, Popped):
+                    stack.append(l)
+
+
+def contains_term(t, sub):
+    k = _key(sub)
+    return any(_key(x) == k for x in walk_terms(t) if type(x) is type(sub))
+
+
+def mentions_name(t, name):
+    """does a symbol / access path called `name` (or extending it) occur in t?"""
+    for x in walk_terms(t):
+        if isinstance(x, sp.Basic):
+            if any(s.name == name or s.name.startswith(name) for s in x.free_symbols):
+                return True
+        elif isinstance(x, Obj) and x.path and (x.path == name or x.path.startswith(name)):
+            return True
+    return False
